@@ -111,6 +111,8 @@ def run(ctx, idx):
         ok = c.exit not in c.reachable() and rz and not other
         ctx.ob("C13.c", con, rel, fn.lineno, ok, "SyntaxError on every path" if ok else "%s can return normally or raise another type" % nm)
     grammar_action_types(ctx, idx, "C13.c", lexicon)
+    from .C10 import error_callbacks_total
+    error_callbacks_total(ctx, idx, "C13.c", lexicon)
     dfas = {r.name: RL.dfa(r.pattern) for r in lexicon.rules}
     for r in lexicon.rules:
         if r.kind != "func":
